@@ -104,14 +104,18 @@ CLAIMED["C02"] = dict(
          "reaches quiescence - sent and outbound queue empty, flight size 0 - within 2*(outstanding+queued) inputs, "
          "by a TSN-order invariant (queue TSNs are the consecutive run after max(last SACKed, advanced ack point)) "
          "and a decreasing measure; the acknowledgement of that continuation is the one the receiver model sends "
-         "when the outstanding chunks arrive in order (6 theorems). PARTIAL: the full closed loop of two endpoints "
-         "within bounded time (SACK delay, timers, reordering in the suffix, both directions) is observed on the "
-         "two-endpoint simulator (fault prefix + fault-free suffix), not proved; real time (RTO) is outside every "
-         "theorem.",
+         "when the outstanding chunks arrive in order; every SCTP timer is armed with a delay in [1 s, 60 s] after "
+         "ANY history of round-trip measurements, NaN / infinite / negative ones included (Model/Rto.v: _update_rto "
+         "in primitive IEEE-754 floats, bit-exact) (7 theorems). PARTIAL: the full closed loop of two endpoints "
+         "within bounded time (SACK delay, when timers fire, reordering in the suffix, both directions) is observed "
+         "on the two-endpoint simulator (fault prefix + fault-free suffix), not proved.",
     design_ref="5 / C02",
     note="Sender model tied to a real RTCSctpTransport (ESTABLISHED; _send_chunk, timers, ensure_future recorded) by "
          "differential runs comparing outputs and the full sender state after every input; lost DATA needs no input "
-         "(the chunk stays outstanding), loss/dup/reorder of SACKs = arbitrary SACK inputs. RTO floats not modelled.",
+         "(the chunk stays outstanding), loss/dup/reorder of SACKs = arbitrary SACK inputs. Model/Rto.v is compared "
+         "bit for bit with the real _update_rto inside Coq (vm_compute over hexadecimal float literals) on 400 / 2500 "
+         "measurement histories per run; Print Assumptions of theorem 7 lists the kernel's primitive float operations "
+         "(not axioms).",
     technique="Coq proof (inductive invariant over all input histories, zipper model of in-place queue mutation) + "
               "model/implementation correspondence",
 )
